@@ -44,6 +44,9 @@ CHECKS = {
  'C15': dict(technique='replay of the reported log on a fresh un-automated state, double execution, and deepcopy divergence with identity scan of mutable containers',
              text='Held on the generated histories: log replay reproduces every record and all state fields; re-execution is identical; copies share no container, do not change with the original, respond identically, and divergent continuations equal fresh replays.',
              note='Equality over all dataclass fields except automations and the divmod/rake callables.', ref='DESIGN.md §2 C15'),
+ 'C08': dict(technique='probe battery at sampled reachable states: can_x / verify_x / x on a deep copy for hostile argument sets, with a deep state fingerprint before and after every call',
+             text='Held on >2*10^6 probe triplets per quick run over ~2*10^4 probed states of all phases (incl. after the hand): query, verifier and operation agree, refusals are ValueError/UserWarning, refused calls leave repr(State) unchanged, explicit indices are honoured.',
+             note='Arguments of the documented types; fingerprint = repr of all dataclass fields.', ref='DESIGN.md §2 C08'),
 }
 PENDING_REASON = 'check not built yet in this revision (runtime monitor planned, see DESIGN.md §2); not claimed until it exists'
 
